@@ -42,6 +42,10 @@ def run(ctx):
     # (helper functions, recursion, arguments) take part in every comparison below
     cj = suites.core_suite(ctx, ctx.budget(60, 600), configs=((2, 100, False), (4, 30, False)), faults=0.0)
     progs += [(j[1], list(j[2])) for j in cj[:ctx.budget(30, 300)]]
+    # frame-pressure programs: live stack arrays below later locals, temporaries and call frames, everything printed at the end -
+    # a frame peak computed too small makes the output depend on -s just above the minimum
+    import gen_special
+    progs += gen_special.frame_pressure_programs(ctx.rng, ctx.budget(40, 400))
     # (a) determinism across processes
     items = []
     for src, _ in progs:
